@@ -12,12 +12,13 @@ import (
 )
 
 type half struct {
-	mu     sync.Mutex
-	cond   *sync.Cond
-	buf    []byte
-	closed bool
-	log    []byte // everything ever written into this half
-	inj    []byte // tail of what was injected into this half (WriteHook only)
+	mu      sync.Mutex
+	cond    *sync.Cond
+	buf     []byte
+	closed  bool
+	log     []byte // everything ever written into this half
+	inj     []byte // tail of what was injected into this half (WriteHook only)
+	waiters int    // readers blocked in Read on this half
 }
 
 type Conn struct {
@@ -49,7 +50,9 @@ func (c *Conn) Read(p []byte) (int, error) {
 		if h.closed {
 			return 0, io.EOF
 		}
+		h.waiters++
 		h.cond.Wait()
+		h.waiters--
 	}
 	n := copy(p, h.buf)
 	h.buf = h.buf[n:]
@@ -145,4 +148,22 @@ func (c *Conn) CloseWrite() {
 	h.closed = true
 	h.cond.Broadcast()
 	h.mu.Unlock()
+}
+
+// ReadWaiting reports whether a Read on this end is blocked right now: a reader is parked, nothing is
+// buffered for it and the direction is open. Together with WrittenLen (sampled before and after) a
+// harness can tell a set of connections on which every party waits for another -- a stall that no
+// amount of time resolves -- from one that is merely slow, without any timer.
+func (c *Conn) ReadWaiting() bool {
+	h := c.rd
+	h.mu.Lock()
+	defer h.mu.Unlock()
+	return h.waiters > 0 && len(h.buf) == 0 && !h.closed
+}
+
+// WrittenLen: how many bytes this end has written so far.
+func (c *Conn) WrittenLen() int {
+	c.wr.mu.Lock()
+	defer c.wr.mu.Unlock()
+	return len(c.wr.log)
 }
